@@ -6,6 +6,5 @@
 #
 from pyasn1.error import PyAsn1Error
 
-
-class ValueConstraintError(PyAsn1Error):
-    pass
+# the documented exception class, not a namesake of it
+from pyasn1.error import ValueConstraintError
